@@ -9,8 +9,10 @@
 From TxV Require Import Core.Base Model.PlainDefs Gen.SrcPlain.
 
 (* ---------------------------------------------------------------- metamodel classes *)
-(* A class is its position in the table.  cinh = _tx_inh_by as positions. *)
-Record cls := { cname : list N; cinh : list nat }.
+(* A class is its position in the table.  cinh = _tx_inh_by as positions;  cpy = the other classes of the
+   table that are Python base classes of this class (user-supplied classes may inherit from each other:
+   isinstance(obj, c) then also holds for those c) - [] for classes textX creates itself. *)
+Record cls := { cname : list N; cinh : list nat; cpy : list nat }.
 
 Definition OBJECT_name : list N := [79;66;74;69;67;84]%N.
 
@@ -18,9 +20,9 @@ Definition mem_nat (x : nat) (l : list nat) : bool := existsb (Nat.eqb x) l.
 
 Section Conformance.
   Variable classes : list cls.
-  (* the class of the object under test, as far as isinstance / _tx_fqn equality see it:
-     Some c = it is an instance of (or has the fqn of) class c; None = a foreign object *)
-  Variable oc : option nat.
+  (* the object under test, as far as isinstance / _tx_fqn equality see it: the classes c of the table for
+     which isinstance(obj, c) or obj._tx_fqn == c._tx_fqn holds ([] = a foreign object) *)
+  Variable dc : list nat.
 
   Definition inh (c : nat) : list nat :=
     match nth_error classes c with Some k => cinh k | None => [] end.
@@ -30,7 +32,7 @@ Section Conformance.
 
   (* the three non-recursive tests of _isinstance *)
   Definition local (c : nat) : bool :=
-    is_object_cls c || match oc with Some o => Nat.eqb o c | None => false end.
+    is_object_cls c || mem_nat c dc.
 
   (* _isinstance(obj_cls) with the shared `visited` set threaded through.
      None = out of fuel (excluded by C07_conforms_total for well-formed tables). *)
@@ -62,6 +64,10 @@ Section Conformance.
   Definition conforms (t : nat) : bool :=
     match conforms_opt t with Some b => b | None => false end.
 End Conformance.
+
+(* the direct tests an instance of class k passes: its own class and its Python base classes *)
+Definition direct_of (classes : list cls) (k : nat) : list nat :=
+  k :: match nth_error classes k with Some c => cpy c | None => [] end.
 
 (* every _tx_inh_by entry is a class of the table *)
 Definition wf_classes (classes : list cls) : bool :=
@@ -104,7 +110,7 @@ Definition selector (classes : list cls) (n : list N) (t : nat) (d : node) : boo
   forallb (fun cj => match cj with
                      | SHasName => has_name d
                      | SNameEq => name_eq n d
-                     | SIsInstance => conforms classes (Some (ncls_of d)) t
+                     | SIsInstance => conforms classes (direct_of classes (ncls_of d)) t
                      end) selector_conj.
 
 Inductive pres :=
@@ -133,10 +139,10 @@ Definition plain_name (classes : list cls) (root : node) (n : list N) (t : nat) 
   dispatch plain_dispatch (candidates classes root n t).
 
 (* ---------------------------------------------------------------- resolve_one_step *)
-(* metamodel.builtins: key -> object; of the object only its class (see `oc`) matters *)
-Definition builtins := list (list N * option nat).
+(* metamodel.builtins: key -> object; of the object only the direct tests it passes (see `dc`) matter *)
+Definition builtins := list (list N * list nat).
 
-Fixpoint blookup (n : list N) (b : builtins) : option (option nat) :=
+Fixpoint blookup (n : list N) (b : builtins) : option (list nat) :=
   match b with
   | [] => None
   | (k, o) :: b' => if str_eqb k n then Some o else blookup n b'
@@ -162,6 +168,12 @@ Definition resolve_ref (classes : list cls) (root : node) (b : builtins) (r : re
     | None => ErrUnknown (rname r) (rcls r)
     end
   end.
+
+(* several loaded models (the main model and the models it imports): PlainName searches get_model(obj), the
+   model that contains the referring object, and nothing else *)
+Definition empty_model : node := Node 0 NoName [].
+Definition resolve_in (classes : list cls) (world : list node) (i : nat) (b : builtins) (r : ref) : outcome :=
+  resolve_ref classes (nth i world empty_model) b r.
 
 Definition is_error (o : outcome) : bool :=
   match o with Resolved _ | Builtin _ => false | _ => true end.
